@@ -459,6 +459,20 @@ int __wrap_pthread_mutex_unlock(pthread_mutex_t *m)
     yield_end();
     return 0;
 }
+/* pdsh's own allocator entry points (xmalloc.c): with SCHED_UYIELD each call is a preemption point, so that string
+ * building (xstrcat and friends: a scratch buffer filled, then copied) interleaves with other threads */
+void *__real_Malloc(size_t n);
+void __real_Realloc(void **item, size_t n);
+void *__wrap_Malloc(size_t n)
+{
+    if (self >= 0 && uyield && nthr > 3) { yield_op(OP_NOP); yield_end(); }
+    return __real_Malloc(n);
+}
+void __wrap_Realloc(void **item, size_t n)
+{
+    if (self >= 0 && uyield && nthr > 3) { yield_op(OP_NOP); yield_end(); }
+    __real_Realloc(item, n);
+}
 int __wrap_pthread_cond_wait(pthread_cond_t *c, pthread_mutex_t *m)
 {
     if (self < 0 || !is_static(c)) return __real_pthread_cond_wait(c, m);
